@@ -45,8 +45,29 @@ def crossdoc_case(rng):
     return {"steps": steps, "env": gen.ENV}
 
 
+def placeholder_case(rng):
+    """empty maps / lists as placeholders next to a map-form $merge (evaluation merges INTO them): an output call must
+    not fill the stored document's placeholders"""
+    tmpl = {"labels": {"app": rng.choice(["web", "db"])}, "ports": [80], "meta": {"deep": {"x": 1}}}
+    svc = {"$merge": rng.choice(["tmpl", ["tmpl"]]), "labels": rng.choice([{}, {"own": 1}]), "ports": rng.choice([[], [443]]),
+           "meta": rng.choice([{}, {"deep": {}}])}
+    doc = {"tmpl": tmpl, "svc": svc}
+    if rng.random() < 0.4:
+        doc["other"] = {"e": {}, "l": []}
+    steps = [{"merge": {"id": "D0", "parents": [], "data": doc}}]
+    steps += [rng.choice([{"outdocs": True}, {"out": rng.choice(FMTS)}]) for _ in range(rng.randint(1, 2))]
+    steps += [{"docs": True}]
+    if rng.random() < 0.7:
+        steps.append({"merge": {"id": "P1", "parents": ["D0"], "data": {"svc": {"labels": {"tier": "db"}}}}})
+    steps += [{"docs": True}, {"outdocs": True}, {"outdocs": True}, {"docs": True}]
+    return {"steps": steps, "env": gen.ENV}
+
+
 def gen_case(rng):
-    if rng.random() < 0.25:
+    r0 = rng.random()
+    if r0 < 0.08:
+        return placeholder_case(rng)
+    if r0 < 0.3:
         return crossdoc_case(rng)
     steps = []
     ids = []
